@@ -791,6 +791,7 @@ func TestCorr(t *testing.T) {
 		h := newHist(t, run, st)
 		h.fund()
 		for _, o := range ops {
+			o.Sender, o.Denom, o.NewAdmin, o.To = h.expand(o.Sender), h.expand(o.Denom), h.expand(o.NewAdmin), h.expand(o.To)
 			h.exec(o)
 		}
 		h.finish(1)
@@ -828,6 +829,19 @@ func TestCorr(t *testing.T) {
 	if err := run.Finish("TokenFactory.Ledger TokenFactory.Denom TokenFactory.Factory Corr.C16", "Corr.C16.case", "Corr.C16.check"); err != nil {
 		t.Fatal(err)
 	}
+}
+
+// expand replaces the corpus placeholders @0..@4 (user addresses), @U0..@U4 (the same in upper
+// case) and @tf (the tokenfactory module account) so that corpus files stay readable.
+func (h *hist) expand(s string) string {
+	if !strings.Contains(s, "@") {
+		return s
+	}
+	for i, u := range h.users {
+		s = strings.ReplaceAll(s, fmt.Sprintf("@U%d", i), strings.ToUpper(u.String()))
+		s = strings.ReplaceAll(s, fmt.Sprintf("@%d", i), u.String())
+	}
+	return strings.ReplaceAll(s, "@tf", h.e.tfMod.String())
 }
 
 // fund: another module mints the fee denominations to the users (as ops of the history, so the
